@@ -547,9 +547,13 @@ REMOVE = ("remove", "pop", "popleft")
 class Queue(object):
     """a queueing executor: class, queue field, record class, role fields, lock fields"""
 
-    def __init__(self, ctx, cls):
+    def __init__(self, ctx, cls, field=None):
         self.cls = cls
-        self.field, self.rec, self.roles = record_roles(ctx, cls)
+        if field is None:
+            self.field, self.rec, self.roles = record_roles(ctx, cls)
+        else:
+            # a guarded list known by other means (the state a worker loop scans); no record roles
+            self.field, self.rec, self.roles = field, None, {}
         self.locks = lock_fields(ctx, cls)
         if not self.locks:
             raise AnalysisError("%s: no lock field found" % cls.name)
@@ -761,3 +765,37 @@ def op_roles(ctx, cls):
     if cls.key not in cache:
         cache[cls.key] = OpRoles(ctx, cls)
     return cache[cls.key]
+
+
+def rebuild_rule(ctx, rep, cls, field, rule, what):
+    """a shared list that is *rebuilt* from a walk over itself (self.F = [x for x in self.F if ...], or a helper
+    partitions it and the caller stores the result) must be walked and stored in one hold of its lock: an entry
+    appended by another thread between the walk and the store is lost"""
+    locks = lock_fields(ctx, cls)
+    own = set(m.key for c in cls.mro() if isinstance(c, ClassInfo) for m in c.methods.values())
+    n = 0
+    seen = set()
+    fns = [m for c in cls.mro() if isinstance(c, ClassInfo) for m in c.methods.values() if cls.lookup(m.name)[1] is m and m.name != "__init__"]
+    fns += [f for f in ctx.prog.functions.values() if f.owner is None and f.parent is None and f.module is cls.module]
+    for m in fns:
+        ps, it = ctx.paths(m, cls if m.owner is not None else None, depth=2, inline=lambda callee, ev, path: callee.key in own and callee.name != "__init__")
+        for p in ps:
+            for s_ in p.evs("store"):
+                t = s_.d["target"]
+                if not (isinstance(t, tuple) and t[0] == "attr" and t[2] == field and it.type_of(t[1], p) in (None, "C:" + cls.key)):
+                    continue
+                v = q.deref(p, s_.d["value"]) if isinstance(s_.d["value"], tuple) else s_.d["value"]
+                if not (isinstance(v, tuple) and v and v[0] in ("comp", "list", "listof", "unpack", "call")):
+                    continue
+                walks = [e for e in p.evs("loop") if e.d[0] == "enter" and e.seq < s_.seq and e.d[1] is not None and container_of(e.d[1]) == t and not is_snapshot(e.d[1])]
+                if not walks:
+                    continue
+                key = "%s: %s is rebuilt from a walk over itself in one hold of its lock" % (m.qualname, what)
+                if (key, s_.node) in seen:
+                    continue
+                n += 1
+                L = [l[1] for l in s_.locks if isinstance(l[1], tuple) and l[1][0] == "attr" and l[1][1] == t[1] and l[1][2] in locks]
+                ok = any(held_throughout(p, lk, walks[-1], s_) for lk in L)
+                seen.add((key, s_.node))
+                rep.ob(rule, key, ok, "the list is walked and the result stored back without one continuous hold of the lock: an entry appended by another thread in between is dropped", where_of_(m, s_), None)
+    return n
